@@ -12,7 +12,7 @@ META = dict(
                "cycles (a container below itself) are never built.",
     design_ref="4 (extensions)",
     rule="history of setServiceParent/disownServiceParent/privilegedStartService/startService/stopService/setName/getServiceNamed/fire-stop-Deferred "
-         "over a pool of <=5 services; distinct by event sequence; exhaustive for all disciplined histories of length <=3 (quick) / <=4 (thorough) on small pools",
+         "over a pool of <=5 services; distinct by event sequence; exhaustive for all disciplined histories of length 3 on two small pools (quick) / length 4 on one and 3 on two more (thorough)",
 )
 NAMES = [None, "", "a", "b"]
 K = 3
@@ -285,12 +285,12 @@ def run(ctx):
 
     traces = []
     nex = 0
-    for cfg in SMALL[:ctx.pick(2, 3)]:
-        hs = exhaustive_histories(cfg, ctx.pick(3, 4))
+    for i, cfg in enumerate(SMALL[:ctx.pick(2, 3)]):
+        hs = exhaustive_histories(cfg, 4 if (i == 0 and not ctx.quick) else 3)
         nex += len(hs)
         traces += hs
     ctx.log("exhaustive-short: %d histories" % nex)
-    for i in range(ctx.pick(1500, 25000)):
+    for i in range(ctx.pick(1500, 20000)):
         cfg = random_cfg(ctx.rng)
         traces.append(random_history(cfg, ctx.rng, ctx.rng.randint(4, 24), 0.15 if i % 5 == 0 else 0.0))
     ctx.note_traces(traces)
